@@ -51,3 +51,32 @@ func init() {
 		return src, out, ok, err
 	}
 }
+
+func init() {
+	// C13: a read cancelled while queued behind the limiter must not take a
+	// token out of it. The model's choice (ctx.Done() wins the select while the
+	// limiter is full) is forced by a full limiter and a cancelled context.
+	c13 := func(P *Program, v *ObligResult) (string, string, bool, error) {
+		fn := fnOfObligation(P, v.Name)
+		g := &goGen{P: P, model: v.Model, pkg: fn.Pkg.Pkg, imports: map[string]bool{"testing": true, "fmt": true, "context": true,
+			modPath + "/internal/omode": true, modPath + "/internal/regex": true, modPath + "/internal/lcontext": true, modPath + "/internal/io/line": true}}
+		body := `limiter := make(chan struct{}, 1)
+		limiter <- struct{}{} // the slot of another, still running read
+		sh := &ServerHandler{catLimiter: limiter, tailLimiter: make(chan struct{}, 1)}
+		sh.lines = make(chan *line.Line, 100)
+		sh.serverMessages = make(chan string, 10)
+		r := &readCommand{server: sh, mode: omode.CatClient}
+		ctx, cancel := context.WithCancel(context.Background())
+		cancel() // the session ends while this read is queued
+		for i := 0; i < 50 && len(limiter) == 1; i++ {
+			r.read(ctx, lcontext.LContext{}, "/nonexistent-govc-replay", "x", regex.NewNoop())
+		}
+		if len(limiter) != 1 {
+			panic(fmt.Sprintf("a cancelled, queued read released a slot it never held: len(limiter)=%d, want 1", len(limiter)))
+		}`
+		src := g.testFile(fn.Pkg.Pkg, body)
+		out, ok, err := runOverlayTest(P, fn.Pkg.Pkg, src)
+		return src, out, ok, err
+	}
+	specialReplays["server/handlers.(*readCommand).read#typestate:release-only-if-held@(*readCommand).read$1/func() { select { case <-limiter: default: } }()"] = c13
+}
